@@ -90,3 +90,17 @@ HARNESS(h_2d_setitem_vector)
            for (u64 k = 0; k < cap; k++) CHECK(data[k] == want[k], "a[xs, ys] = b stores b[p,q] in the (p,q)-th selected element"); }
     END;
 }
+HARNESS(h_2d_setitem_array1d)
+{   /* a[xs, ys] = <1-D array>: the source is consumed row by row (x fastest); its length must be the number of selected elements */
+    STATE; INDEX(0, lx) INDEX(1, ly) IN(u64, dl); INA(u32, src, N * N);
+    ASSUME(dl <= N * N);
+    static u32 sdat[N * N]; for (int k = 0; k < N * N; k++) sdat[k] = src[k];
+    struct T_class_PyImath__FixedArray d; d.f0 = sdat; d.f1 = dl; d.f2 = 1; d.f3 = 1; d.f4.f0 = 0; d.f5.f0 = 0; d.f5.f1.f0 = 0; d.f6 = 0;
+    __verif_exc = 0; w_2d_setitem_array1d(&a, &tuple_obj, &d);
+    if (bad0 || bad1 || dl != n0 * n1) { CHECK(__verif_exc == PYERR, "an out-of-range index or a source of another length raises"); for (u64 k = 0; k < cap; k++) CHECK(data[k] == init[k], "and writes nothing"); }
+    else { CHECK(__verif_exc == 0, "a source with one element per selected slot is accepted");
+           u32 want[2 * (N + 1) * N]; for (u64 k = 0; k < 2 * (N + 1) * N; k++) want[k] = init[k];
+           for (u64 q = 0; q < N; q++) for (u64 p = 0; p < N; p++) if (p < n0 && q < n1) want[SLOT(b0 + p * t0, b1 + q * t1)] = src[q * n0 + p];
+           for (u64 k = 0; k < cap; k++) CHECK(data[k] == want[k], "a[xs, ys] = flat stores flat[q*nx + p] in the (p,q)-th selected element"); }
+    END;
+}
